@@ -344,10 +344,48 @@ def custom_plan_case(rec, seedt):
     api.check_result(res, data, desc, rec, f"custom-plan[{desc['backend']}]")
 
 
+def forced_band_case(rec, seedt):
+    """force_target_nf together with band: the band-restricted analysis must be the in-band bins of
+    the unrestricted analysis made with the same options (same forced target)."""
+    from speckit.analysis import SpectrumAnalyzer
+    rng = gen.rng_for(*seedt)
+    N = int(rng.integers(600, 3000))
+    x = gen.record(rng, N, "white")
+    fs = float(rng.choice([1.0, 100.0]))
+    sched = str(rng.choice(["ltf", "lpsd", "new_ltf"]))
+    base = dict(scheduler=sched, olap=0.5, Kdes=int(rng.choice([2, 10])), order=0, win="hann")
+    desc = {"kind": "forced-band", "seed": list(seedt), "N": N, "fs": fs, "sched": sched}
+    rec.case(desc, nontrivial=True)
+    try:
+        target = int(len(SpectrumAnalyzer(x, fs, Jdes=int(rng.choice([120, 200, 300])), **base).plan()["f"]))
+        kw = dict(base, Jdes=target, force_target_nf=True)
+        full = SpectrumAnalyzer(x, fs, **kw).compute()
+        f = np.asarray(full.f)
+        a = int(rng.integers(1, max(2, full.nf // 2)))
+        b = int(rng.integers(a, full.nf))
+        band = (float(f[a]), float(f[b]))
+        part = SpectrumAnalyzer(x, fs, band=band, **kw).compute()
+    except (ValueError, RuntimeError) as e:
+        rec.blocked(f"rejected: {str(e)[:70]}")
+        return
+    rec.count("forced_band_pairs")
+    if full.nf != target:
+        rec.violation("forced-count", f"force_target_nf with target {target} gave {full.nf} bins")
+    sel = np.nonzero((f >= band[0]) & (f <= band[1]))[0]
+    if part.nf != sel.size or np.any(np.abs(np.asarray(part.f) - f[sel]) > 1e-12 * f[sel]) \
+            or np.any(np.abs(np.asarray(part.XX) - np.asarray(full.XX)[sel])
+                      > 1e-12 * np.abs(np.asarray(full.XX)[sel])):
+        rec.violation("band:bin-count", f"force_target_nf={target} with band {band}: {part.nf} bins "
+                                        f"returned, the unrestricted forced analysis has {sel.size} "
+                                        f"bins there (or they differ)")
+
+
 def run_shard(params, rec):
     if not params.get("cuda"):
         for i in range(max(2, params["n"] // 4)):
             custom_plan_case(rec, [params["seed"], params["shard"], "custom", i])
+        for i in range(2):
+            forced_band_case(rec, [params["seed"], params["shard"], "forced-band", i])
     if params.get("cuda"):
         from speckit import core
         if not core._CUDA_ENABLED:
@@ -365,6 +403,8 @@ def run_shard(params, rec):
 def replay(case, rec):
     if case.get("kind") == "custom-plan":
         return custom_plan_case(rec, case["seed"])
+    if case.get("kind") == "forced-band":
+        return forced_band_case(rec, case["seed"])
     if case.get("vary_of"):
         # reproduce the history: the analysis this one was derived from runs first
         one_analysis.last = None
